@@ -103,12 +103,32 @@ def template(rnd, name):
         sp = {"species": ["A"], "x0": {"A": rnd.randint(0, 6)}, "reactions": rx}
         finite = False
         cap = "poisson"
+    elif name == "large_counts":
+        # thousands of copies: the number of ordered reactant combinations of a third-order reaction exceeds 2^32; the rate
+        # constant is scaled so that only a handful of firings happen on the grid (a chain of < 1500 states)
+        form = rnd.randrange(3)
+        if form == 0:
+            x0 = {"A": rnd.randint(1650, 2400), "B": 0}
+            reac, prod = ["A", "A", "A"], ["B"]
+            h = x0["A"] * (x0["A"] - 1) * (x0["A"] - 2)
+        elif form == 1:
+            x0 = {"A": rnd.randint(1600, 2400), "G": rnd.randint(2000, 4000), "C": 0}
+            reac, prod = ["A", "G", "A"], ["C", "G"]
+            h = x0["A"] * (x0["A"] - 1) * x0["G"]
+        else:
+            x0 = {"A": rnd.randint(2000, 2600), "B": rnd.randint(2000, 2600), "C": rnd.randint(900, 1300), "D": 0}
+            reac, prod = ["A", "B", "C"], ["D"]
+            h = x0["A"] * x0["B"] * x0["C"]
+        rx = [ma(reac, prod, float("%.4g" % (rnd.uniform(0.8, 2.5) / h)))]
+        sp = {"species": sorted(x0), "x0": x0, "reactions": rx}
+        finite = False
+        sims = ["ssa", "psm"]
     sp["params"] = {}
     sp["rules"] = []
     return sp, finite, sims, cap
 
 
-TEMPLATES = ["chain", "homodimer", "trimer", "catalysis", "competing", "hill", "general", "birthdeath"]
+TEMPLATES = ["chain", "homodimer", "trimer", "catalysis", "competing", "hill", "general", "birthdeath", "large_counts"]
 
 
 def make_grid(rnd, rate_scale):
